@@ -34,7 +34,9 @@ Permitted(type, purpose) ==
 IdOk(id) == id.present /\ id.len >= 1 /\ id.len <= 50 /\ id.chars = "ok"
 
 IdVals == [present : {TRUE}, len : {0, 1, 50, 51}, chars : {"ok"}]
-            \cup [present : {TRUE}, len : {1, 50}, chars : {"space", "dot", "nonascii", "slash", "kelvin", "longs", "linefeed"}]
+            \cup [present : {TRUE}, len : {1, 50}, chars : {"space", "dot", "nonascii", "slash", "kelvin", "longs", "linefeed",
+                                                                     \* (a '#' in front - the relative form of an id in resolved documents; a blank at the end)
+                                                                     "hash_first", "space_last"}]
             \cup {[present |-> FALSE, len |-> 0, chars |-> "ok"]}
 
 -----------------------------------------------------------------------------
